@@ -324,10 +324,36 @@ def _candidates(prog):
         yield cand
 
 
+def _ast_loop(prog, path):
+    """The statement of the JSON program at a PSyIR child-index path
+    (statement index, then 3 = loop body / 1,2 = if/else body, ...)."""
+    cur = prog["body"]
+    i = 0
+    st = None
+    while i < len(path):
+        if path[i] >= len(cur):
+            return None
+        st = cur[path[i]]
+        i += 1
+        if i >= len(path):
+            return st
+        sel = path[i]
+        i += 1
+        if st["k"] == "do" and sel == 3:
+            cur = st["body"]
+        elif st["k"] == "if" and sel in (1, 2):
+            cur = st["then"] if sel == 1 else st.get("else", [])
+        else:
+            return None
+    return st
+
+
 def features(prog, vio):
-    """Root-cause features of the minimised program."""
+    """Root-cause features of the minimised program, relative to the loop
+    the analysis was asked about."""
     feats = c09.features(prog, {})
-    # for C08 no clauses exist: a conditionally first-written scalar
+    # for C08 no clauses exist: a scalar whose first write *in the analysed
+    # loop's body* is conditional
     first_write = {}
 
     def scan(stmts, under_if):
@@ -341,7 +367,12 @@ def features(prog, vio):
                 # the loop machinery writes the loop variable
                 first_write.setdefault(st["var"], under_if)
                 scan(st["body"], under_if)
-    scan(prog["body"], False)
+    target = _ast_loop(prog, vio.get("path") or
+                       vio["observed"].get("loop_path") or [])
+    if target is not None and target["k"] == "do":
+        scan(target["body"], False)
+    else:
+        scan(prog["body"], False)
     feats["cond_first_write_scalar"] = sorted(
         n for n, u in first_write.items() if u)
     loc = vio["observed"].get("location", [None])
